@@ -11,9 +11,13 @@ R26.2 Kleene monotonicity: each predicate handler, interpreted under every
       (loops over the operands unrolled once and twice), never turns an
       indeterminate sub-answer into a definite answer that differs from the
       one it gives when the sub-answer is known.
-The value-preservation half of the property (matrix add/mul/Hadamard/
-transpose/trace against the dense computation) and the merge rules are not
-decided.
+R26.3 a scalar coefficient folded over the operands of a matrix factory
+      (`scalar = mul(scalar, ...)`) is never overwritten inside the loop.
+R26.4 every result returned after the fold carries that coefficient, unless
+      the path establishes it to be neutral or the result to be a zero matrix.
+The rest of the value-preservation half of the property (entries of matrix
+add/mul/Hadamard/transpose/trace against the dense computation, sizes of
+absorbed products) and the merge rules are not decided.
 """
 from selib.program import walk, show, short, strip_type
 from selib.visitors import Visitors, MustAssign
@@ -35,7 +39,10 @@ def run(loader, R, tier):
         "are necessary conditions of 'a predicate never gives an answer "
         "contradicted by the concrete matrix'; they do not use matrix "
         "values, so they do not decide that a definite answer is the right "
-        "one, nor the value-preservation clause.")
+        "one.  R26.3/R26.4 are the structural part of the value clause that "
+        "is visible in the code: the scalar coefficient of a product is "
+        "folded, never overwritten, and reaches every result; the entries "
+        "themselves are not decided.")
     R.rule("R26.1", "result definitely assigned in every reachable handler "
                     "of the matrix visitors")
     R.rule("R26.2", "matrix predicate handlers are monotone in their "
@@ -104,6 +111,116 @@ def run(loader, R, tier):
                 if badm or not any(n.get("k") == "forr"
                                    for n in walk(f["body"])):
                     break
+    # ------------------------------------------------------ R26.3 / R26.4
+    # scalar coefficients of the matrix factories: a local initialised with
+    # the neutral element (one/zero) and folded in a loop over the operands
+    # (`scalar = mul(scalar, ...)`) is the coefficient of the result.
+    # R26.3: every assignment to it inside a loop is a fold (reads it) --
+    # an overwrite loses the coefficient gathered from earlier operands.
+    # R26.4: every return after the folding loop uses it, or is reached
+    # only where it is established to be the neutral element, or returns an
+    # operand established to be a ZeroMatrix (zero absorbs the coefficient).
+    from selib import sym as _sym
+    R.rule("R26.3", "a coefficient accumulated over the operands of a "
+                    "matrix factory is only ever folded, never overwritten")
+    R.rule("R26.4", "every result of a matrix factory carries the "
+                    "accumulated coefficient unless it is neutral or "
+                    "absorbed")
+    LOOPS = ("forr", "for", "while", "do")
+    nacc = 0
+    for u, f in sorted(prog.functions.items(), key=lambda kv: kv[1]["qn"]):
+        if "/symengine/matrices/" not in (f.get("file") or "") \
+                or not f.get("body") or f.get("dependent") \
+                or f.get("tk") == "pattern":
+            continue
+        accs = {}
+        for d in walk(f["body"]):
+            if d.get("k") != "decl":
+                continue
+            for v in d.get("v", ()):
+                if "RCP<const SymEngine::Basic>" not in (v.get("t") or "") \
+                        and "RCP<const SymEngine::Number>" not in (
+                            v.get("t") or ""):
+                    continue
+                g = [x.get("q") for x in walk(v.get("i") or {})
+                     if x.get("k") == "ref" and x.get("d") == "global"]
+                if g and g[0] in ("SymEngine::one", "SymEngine::zero") \
+                        and len(g) == 1:
+                    accs[v["n"]] = (g[0], d.get("l"))
+        for acc, (neutral, dl) in sorted(accs.items()):
+            asg = []   # (line, reads_acc, loop_line)
+            for lp in walk(f["body"]):
+                if lp.get("k") not in LOOPS:
+                    continue
+                for n in walk(lp.get("b") or {}):
+                    if n.get("k") == "op" and n.get("op") == "=" \
+                            and len(n.get("a", ())) == 2 \
+                            and n["a"][0].get("k") == "ref" \
+                            and n["a"][0].get("n") == acc:
+                        reads = any(x.get("k") == "ref" and x.get("n") == acc
+                                    for x in walk(n["a"][1]))
+                        asg.append((n.get("l"), reads, lp.get("l")))
+            if not any(r for _, r, _ in asg):
+                continue        # not a folded coefficient
+            nacc += 1
+            key = "%s:%s" % (short(f["qn"]), acc)
+            R.instance("R26.3", key, sample={
+                "neutral": neutral, "folds": [l for l, r, _ in asg if r],
+                "overwrites": [l for l, r, _ in asg if not r]})
+            for l, r, _ in asg:
+                if not r:
+                    R.violation(
+                        "R26.3", key, prog.loc(f, l),
+                        "%s assigns the coefficient `%s` inside the operand "
+                        "loop from a value that does not contain its "
+                        "previous value, although other branches fold it "
+                        "(`%s = mul(%s, ...)`): the coefficient gathered "
+                        "from the operands before this one is lost, e.g. "
+                        "3*(2*A)*B becomes 2*A*B" % (
+                            short(f["qn"]), acc, acc, acc))
+            last_loop = max(ll for _, _, ll in asg)
+            rets = {id(n["e"]): n for n in walk(f["body"])
+                    if n.get("k") == "return" and n.get("e")
+                    and (n.get("l") or 0) > last_loop}
+            nret = [0]
+
+            def cb4(n, guards, line, f=f, acc=acc, key=key, rets=rets,
+                    neutral=neutral, nret=nret):
+                if id(n) not in rets:
+                    return
+                nret[0] += 1
+                if any(x.get("k") == "ref" and x.get("n") == acc
+                       for x in walk(n)):
+                    return
+                for g in _sym.flatten_guards(guards):
+                    if len(g) != 2 or not isinstance(g[0], dict):
+                        continue
+                    c, pol = g
+                    if c.get("k") == "call" and c.get("n") in ("eq", "neq") \
+                            and (c["n"] == "eq") == bool(pol) \
+                            and any(x.get("k") == "ref" and x.get("n") == acc
+                                    for x in walk(c)) \
+                            and any(x.get("k") == "ref"
+                                    and x.get("q") == neutral
+                                    for x in walk(c)):
+                        return
+                    if c.get("k") == "call" and c.get("n") == "is_a" and pol \
+                            and any("ZeroMatrix" in t
+                                    for t in c.get("ta", ())):
+                        return
+                R.violation(
+                    "R26.4", "%s:return@%s" % (key, show(n)[:40]),
+                    prog.loc(f, line),
+                    "%s returns `%s` without the accumulated coefficient "
+                    "`%s`, on a path that does not establish it to be %s "
+                    "(nor the result to be a zero matrix): a scalar factor "
+                    "of the product is dropped" % (
+                        short(f["qn"]), show(n)[:50], acc,
+                        neutral.split("::")[-1]))
+            _sym.visit_guarded(f["body"], cb4)
+            R.instance("R26.4", key, sample={"returns_after_fold": nret[0]})
+    R.floor("folded coefficients in the matrix factories", nacc, 1)
+
     R.floor("matrix visitors", nvis, 10)
     R.floor("reachable matrix handlers", nh, 60)
     R.floor("matrix handlers combining three-valued sub-answers", nmono, 8)
@@ -121,10 +238,15 @@ MANIFEST = dict(
          "and every tribool predicate handler is monotone in its "
          "three-valued sub-answers (an indeterminate operand never yields a "
          "definite answer that differs from the one given when the operand "
-         "is known). Does not decide that a definite answer agrees with the "
-         "concrete matrix, nor the value-preservation clause (matrix add/"
-         "mul/Hadamard/transpose/trace against the dense computation), nor "
-         "the merge rules.",
+         "is known). Of the value clause it decides one structural part: "
+         "the scalar coefficient a matrix factory folds over its operands "
+         "is never overwritten inside the operand loop (R26.3) and every "
+         "result returned after the fold carries it unless it is "
+         "established to be neutral or the result is a zero matrix (R26.4). "
+         "Does not decide that a definite answer agrees with the concrete "
+         "matrix, nor the rest of the value-preservation clause (entries of "
+         "matrix add/mul/Hadamard/transpose/trace against the dense "
+         "computation, sizes of absorbed products), nor the merge rules.",
     note="The same two analyses run over the scalar query visitors under "
          "C34 (R34.2, R34.5).",
     ref="§17 C26 (claimed late in the build phase)",
